@@ -66,6 +66,8 @@ tvars == <<tpc, cur, csig, traced, execved, result>>
 ovars == <<executed, uexec, rets, trapped>>
 cvars == <<script, dec, par, knd>>
 vars == <<cvars, kvars, tvars, ovars>>
+\* model-checking view: the order of handler consultations is history only
+MCView == <<cvars, kvars, tvars, executed, uexec, rets, { trapped[i] : i \in DOMAIN trapped }>>
 
 NoResult == [status |-> "none", exit |-> 0]
 Tasks == DOMAIN script
